@@ -116,7 +116,28 @@ pub fn drive_extreme(seed: u64, n: usize) -> Value {
         match r { Ok((x, e)) => { mix(x.to_bits() as u64); if x != 8.0 || !e { anim_issues.push(json!({"advance": format!("0.5 then {huge}"), "what": "a huge frame after some progress is lost: not ended / not at the terminal values", "x": x.to_string(), "ended": e})); } }
                   Err(_) => anim_issues.push(json!({"advance": format!("0.5 then {huge}"), "what": "panic"})) }
     }
+    // an endless loop (alone, and as one part of a merged timeline) never reports completion, however large the advance
+    let mut endless_issues = vec![];
+    for big in [1.0e6f32, 1.6e19, 1.0e30, f32::MAX] {
+        for merged in [false, true] {
+            let r = catch_unwind(AssertUnwindSafe(|| {
+                let looping = P4::timeline().duration_seconds(2.0).repeat(Repeat::Infinite).keyframe(P4::keyframe(1.0).x(8.0)).build();
+                let once = P4::timeline().duration_seconds(1.0).keyframe(P4::keyframe(1.0).y(3.0)).build();
+                let b = StateAnimatorBuilder::new().from_state(S4::S1);
+                let mut a = if merged { b.on(S4::S1, MergedTimeline::of([once, looping])).build() } else { b.on(S4::S1, looping).build() };
+                a.advance(0.5);
+                let mut ended = a.is_ended();
+                for _ in 0..3 { a.advance(big); ended |= a.is_ended(); }
+                a.advance(0.0);
+                (a.current_values().x, ended || a.is_ended())
+            }));
+            match r { Ok((x, e)) => { mix(x.to_bits() as u64); mix(e as u64);
+                          if e || !x.is_finite() { endless_issues.push(json!({"advance": format!("0.5 then 3 x {big}"), "merged": merged, "what": "an endlessly repeating animation reported completion (or a non-finite value)", "x": x.to_string(), "ended": e})); } }
+                      Err(e) => { mix(0xfeed); let msg = e.downcast_ref::<String>().cloned().or_else(|| e.downcast_ref::<&str>().map(|s| s.to_string())).unwrap_or_default();
+                                  endless_issues.push(json!({"advance": big.to_string(), "merged": merged, "what": "panic", "panic": msg})); } }
+        }
+    }
     let nbad = bad.len();
     bad.retain(|b| !b.is_null());
-    json!({"configs": configs, "evaluations": evals, "digest": format!("{:016x}", digest), "issues": nbad, "first": bad, "animator_issues": anim_issues})
+    json!({"configs": configs, "evaluations": evals, "digest": format!("{:016x}", digest), "issues": nbad, "first": bad, "animator_issues": anim_issues, "endless_issues": endless_issues})
 }
